@@ -81,12 +81,13 @@ Definition spec03 (c : case) : bool :=
   match c with
   | CRun xs ws scripts prog qs => forallb spec_query03 qs
   | CFun _ _ _ _ _ => true
+  | CCopy _ _ _ _ _ _ _ _ _ _ => true
   end.
 Definition spec := spec03.
 
 (** Non-trivial: the program contains at least two of {cache, redirect, a
-    local-answer plugin, forward}, some query was answered by the plugins and
-    replied to. *)
+    local-answer plugin, forward, fallback, dual_selector}, some query was
+    answered by the plugins and replied to. *)
 Definition b2n (b : bool) : N := if b then 1 else 0.
 Definition nontrivial03 (c : case) : bool :=
   match c with
@@ -94,8 +95,11 @@ Definition nontrivial03 (c : case) : bool :=
     (2 <=? b2n (existsb (fun d => match d with DCache _ => true | _ => false end) ws)
            + b2n (existsb (fun d => match d with DRedirect _ => true | _ => false end) ws)
            + b2n (existsb (fun d => match d with DHosts _ | DBlackHole _ _ | DArbitrary _ => true | _ => false end) xs)
-           + b2n (existsb (fun d => match d with DForward _ => true | _ => false end) xs))
+           + b2n (existsb (fun d => match d with DForward _ => true | _ => false end) xs)
+           + b2n (existsb (fun d => match d with DFallback _ _ _ => true | _ => false end) xs)
+           + b2n (existsb (fun d => match d with DDual _ _ => true | _ => false end) ws))
     && existsb (fun o => match o with QObs _ _ _ _ (OAnswer _) (Some _) _ => true | _ => false end) qs
   | CFun _ _ _ _ _ => false
+  | CCopy _ _ _ _ _ _ _ _ _ _ => false
   end.
 Definition nontrivial := nontrivial03.
